@@ -106,9 +106,9 @@ Section DefaultStart.
     nm (mk_default sig st g) I = default_name d st I.
   Proof.
     intros HI. assert (HW : wf_alg (mk_default sig st g) = true) by (apply wf_default; assumption).
-    apply (nm_eq _ HW). apply (entry_bin2canon _ HW).
+    apply nm_eq. apply (entry_bin2canon _ HW).
     change (a_c2b (mk_default sig st g)) with (default_c2b d st).
-    apply (c2b_entry d st Hst). split; [exact HI | reflexivity].
+    apply (c2b_entry d st). split; [exact HI | reflexivity].
   Qed.
 
   Lemma default_name_shift I : default_name d start I = map h (default_name d 0 I).
